@@ -33,6 +33,12 @@ let () =
                   Printf.printf "mqconfirm at=%d id=%d\n" o id; outst := rest;
                   (match mq_confirm !mq (zi o) (zi id) with Ok q -> mq := q | Fault w -> Printf.printf "FAULT confirm %d\n" (iz w))
               | [] -> print_endline "mqconfirm none")
+         | "confirmnewest" ->
+             (match List.rev !outst with
+              | (o, id) :: rest ->
+                  Printf.printf "mqconfirm at=%d id=%d\n" o id; outst := List.rev rest;
+                  (match mq_confirm !mq (zi o) (zi id) with Ok q -> mq := q | Fault w -> Printf.printf "FAULT confirm %d\n" (iz w))
+              | [] -> print_endline "mqconfirm none")
          | "enq" -> (match mq_enqueue !mq (mk_asdu x !aid) with Ok q -> mq := q | Fault w -> Printf.printf "FAULT enq %d\n" (iz w)); incr aid
          | "next" -> (match mq_next !mq with
                       | Ok (Some (o, e), q) -> mq := q; outst := !outst @ [(iz o, iz e.e_id)]; Printf.printf "mqnext id=%d size=%d at=%d pid=%d\n" (iz e.e_id) (iz e.e_sz) (iz o) (pid e.e_asdu)
